@@ -153,6 +153,24 @@ pub fn case_record_with(tier: Tier, seed: u64, idx: u64, fixed: Option<&Scenario
                 }
                 _ => {}
             }
+            // block hashes through the state's database interface: numbers around the served window of
+            // this block (consecutive blocks then ask for numbers exactly 256 apart) and a few fixed ones
+            for _ in 0..rng.below(3) {
+                let n = match rng.below(6) {
+                    0 => block.number.saturating_sub(256),
+                    1 => block.number.saturating_sub(255),
+                    2 => block.number.saturating_sub(1),
+                    3 => block.number,
+                    4 => 90 + rng.below(10),
+                    _ => block.number.saturating_sub(1 + rng.below(300)),
+                };
+                let x = p.block_hash_ref(n).ok();
+                let y = revm::Database::block_hash(&mut r, n).ok();
+                ops_log.push(format!("block_hash({n})"));
+                if x != y {
+                    fail("history.read.block_hash", format!("block_hash({n}): ParallelState {x:?} != revm State {y:?}"), &ops_log);
+                }
+            }
             // reads at a random point
             for _ in 0..rng.below(4) {
                 let a = touched[rng.below(touched.len() as u64) as usize];
